@@ -78,3 +78,24 @@ Theorem C06_new_allocation_starts_empty : forall cfg s src tid c tr lt fam df rp
   exists a, allocs s' = allocs s ++ [a] /\ a_perms a = [] /\ a_chans a = [].
 Proof. exact new_allocation_is_empty. Qed.
 Print Assumptions C06_new_allocation_starts_empty.
+
+(* ---------- history level: refinement of the lifetime specification ---------- *)
+From Turn Require Import Common RelayCheck RelayProps RelayTrace RelayTime.
+(* The specification the correspondence evaluates on the IMPLEMENTATION's observed traces (Check/RelayProps.chk_C06)
+   holds on EVERY trace of the model, for every configuration with positive timeouts whose default lifetime is a whole
+   number of seconds and every history: reconstructed from the success responses alone (an Allocate or Refresh success
+   sets the expiry to "now + reported LIFETIME", a Refresh answered with LIFETIME 0 and a relay failure end it), the set
+   of clients whose lifetime has not elapsed equals, after every step and at every instant, the set of allocations that
+   exist; and every reported LIFETIME is the one the grant rule gives. *)
+Theorem C06_lifetime_specification_refined : forall cfg, cfg_seconds cfg -> cfg_positive cfg ->
+  forall ep h, chk_C06 (model_case cfg ep h) = true.
+Proof. exact chk_C06_on_model. Qed.
+Print Assumptions C06_lifetime_specification_refined.
+
+(* the table of expiry instants reconstructed from the responses is, after every step, a permutation of the deadlines
+   the allocations carry *)
+Theorem C06_reconstructed_expiries_are_the_deadlines : forall cfg, cfg_seconds cfg -> cfg_positive cfg ->
+  forall s e s' acts exp, inv cfg s -> dl_inv s -> Permutation.Permutation exp (dlmap (allocs s)) -> step cfg s e = (s', acts) ->
+  Permutation.Permutation (c06_update (now s') {| os_ev := e; os_acts := acts; os_allocs := listing_of s' |} exp) (dlmap (allocs s')).
+Proof. exact c06_update_perm. Qed.
+Print Assumptions C06_reconstructed_expiries_are_the_deadlines.
